@@ -25,7 +25,7 @@
 (* specification's operations compute.  Failures are printed and the walk  *)
 (* continues: Say(kind, property, clause).                                 *)
 (***************************************************************************)
-EXTENDS NestedSampler, IOUtils, ScheduleOps
+EXTENDS NestedSampler, IOUtils, ScheduleOps, TrainPolicyOps
 
 J   == JsonDeserialize(IOEnv.TRACE_FILE)
 Ev  == J.ev
@@ -248,6 +248,23 @@ EvResume(e) ==
     /\ rank' = RankWith(e) /\ ok' = OkWith(e, TRUE)
     /\ aux' = [aux EXCEPT !.last = "resume", !.itsum = e.it_sum, !.obs.it = -1] /\ UNCHANGED disk
 
+\* ---------------------------------------------------------- train policy
+\* check_training() and train_proposal() against the decision functions of TrainPolicy.tla
+EvTrainCheck(e) ==
+    /\ M("train policy: check_training() is not TrainPolicy.Decision",
+         <<e.train, e.force>> = Decision(e.completed, e.populated, e.train_on_empty, e.populating, e.acc_low,
+                                         e.retrain_acc, e.it, e.last, e.freq))
+    /\ UNCHANGED <<s, rank, ok, disk, aux>>
+
+EvTrainCall(e) ==
+    /\ M("train policy: train_proposal trains iff forced or cooled down (TrainPolicy.Trains)",
+         e.trained = Trains(e.force, e.it, e.last, e.cooldown))
+    /\ M("train policy: reset of weights / permutations is not TrainPolicy.ResetFlags",
+         e.trained => <<e.reset_w, e.reset_p>> = ResetFlags(e.tc, e.reset_acc, e.acc_low, e.rw, e.rp))
+    /\ M("train policy: size of the training data is not TrainPolicy.DataSize",
+         e.trained => e.data_n = DataSize(e.n_live, e.n_dead, e.memory))
+    /\ UNCHANGED <<s, rank, ok, disk, aux>>
+
 \* -------------------------------------------------------- resume_checked
 \* check_resume() ran in the resumed process: the restored proposal pool is usable (flagged populated
 \* with indices left) exactly if it was when the checkpoint was written - a pool invalidated by a
@@ -327,6 +344,8 @@ TraceStep ==
            [] e.ev = "ckpt_call"  -> EvCkptCall(e)
            [] e.ev = "resume"     -> EvResume(e)
            [] e.ev = "resume_checked" -> EvResumeChecked(e)
+           [] e.ev = "train_check" -> EvTrainCheck(e)
+           [] e.ev = "train_call"  -> EvTrainCall(e)
            [] e.ev = "finalise"   -> EvFinalise(e)
            [] e.ev = "done"       -> EvDone(e)
            [] e.ev = "done_again" -> EvDoneAgain(e)
